@@ -57,10 +57,10 @@ CHECKS["C05"] = dict(
           "with >= 2 rectangles or used an aliased result/operand; distinct = distinct serialised histories."
           " Also run coverage-guided: the libFuzzer target fz_regions decodes the fuzzer's bytes through the same generator into the same oracle (ASan build)."),
     jobs=[
-        dict(harness="regions", prop="ops", cases=T(12000, 150000), procs=T(6, 16)),
-        dict(harness="regions_asan", prop="ops", cases=T(3000, 40000), procs=T(2, 4)),
-          dict(harness="fz_regions", prop="canon", kind="fuzz", cases=T(40000, 1500000), procs=T(2, 3), max_len=400)],
-    floor=T(20000, 400000), nt_floor=T(2000, 20000),
+        dict(harness="regions", prop="ops", cases=T(18000, 150000), procs=T(6, 16)),
+        dict(harness="regions_asan", prop="ops", cases=T(4500, 40000), procs=T(2, 4)),
+          dict(harness="fz_regions", prop="canon", kind="fuzz", cases=T(60000, 1500000), procs=T(2, 3), max_len=400)],
+    floor=T(30000, 400000), nt_floor=T(3000, 20000),
     assumptions=["model in harness/ref_region.hpp is the specification of set algebra on integer points",
                  "operations whose arguments overflow the coordinate type (x+width beyond the limit) are outside the stated domain and not generated",
                  "allocation never fails (covered by C15)"],
@@ -76,13 +76,13 @@ CHECKS["C06"] = dict(
           "non-empty point sets in different pool slots."
           " Also run coverage-guided: the libFuzzer target fz_regions decodes the fuzzer's bytes through the same generator into the same oracle (ASan build)."),
     jobs=[
-        dict(harness="regions", prop="canon", cases=T(5000, 80000), procs=T(6, 16)),
-        dict(harness="regions_asan", prop="canon", cases=T(1200, 20000), procs=T(2, 4)),
+        dict(harness="regions", prop="canon", cases=T(7500, 80000), procs=T(6, 16)),
+        dict(harness="regions_asan", prop="canon", cases=T(1800, 20000), procs=T(2, 4)),
           # regions imported from a1 bitmaps must be canonical too (C07's bitmap property checks the rectangle list against the
           # canonical builder, selfcheck and "single rectangle without a list")
-          dict(harness="regions", prop="bitmap", cases=T(4000, 60000), procs=T(1, 2), tag="c06_bitmap"),
-          dict(harness="fz_regions", prop="canon", kind="fuzz", cases=T(40000, 1500000), procs=T(2, 3), max_len=400)],
-    floor=T(8000, 200000), nt_floor=T(500, 5000),
+          dict(harness="regions", prop="bitmap", cases=T(6000, 60000), procs=T(1, 2), tag="c06_bitmap"),
+          dict(harness="fz_regions", prop="canon", kind="fuzz", cases=T(60000, 1500000), procs=T(2, 3), max_len=400)],
+    floor=T(12000, 200000), nt_floor=T(750, 5000),
     assumptions=["canonical-form predicate and canonical builder in harness/ref_region.hpp are written from the property statement"],
 )
 
@@ -96,11 +96,11 @@ CHECKS["C07"] = dict(
           "set bits read by an independent a1 decoder, incl. canonical form. Non-trivial = a rectangle query touching >= 2 "
           "rectangles or a translation that clips some but not all boxes (a); >= 2 runs in a row and differing rows (b)."),
     jobs=[
-        dict(harness="regions", prop="query", cases=T(8000, 120000), procs=T(5, 12)),
-        dict(harness="regions", prop="bitmap", cases=T(6000, 100000), procs=T(2, 4)),
-        dict(harness="regions_asan", prop="query", cases=T(2000, 30000), procs=T(1, 2)),
+        dict(harness="regions", prop="query", cases=T(40000, 120000), procs=T(5, 12)),
+        dict(harness="regions", prop="bitmap", cases=T(30000, 100000), procs=T(2, 4)),
+        dict(harness="regions_asan", prop="query", cases=T(10000, 30000), procs=T(1, 2)),
     ],
-    floor=T(20000, 400000), nt_floor=T(2000, 20000),
+    floor=T(100000, 400000), nt_floor=T(10000, 20000),
     assumptions=["empty query rectangles are not generated: the API does not define IN/OUT for them",
                  "little-endian a1 bit order (bit i of a 32-bit word is pixel i)"],
 )
@@ -115,9 +115,9 @@ CHECKS["C11"] = dict(
           "products of multiply), TRUE/FALSE must match representability, no abort. Non-trivial = not the affine w==1 shortcut / "
           "overflowing / aliased etc. as labelled; distinct = distinct serialised cases."
           " Also run coverage-guided: the libFuzzer target fz_matrix decodes the fuzzer's bytes through the same generator into the same oracle (ASan build)."),
-    jobs=[dict(harness="matrix", prop="matrix", cases=T(250000, 4000000), procs=T(8, 16)),
-          dict(harness="fz_matrix", prop="matrix", kind="fuzz", cases=T(60000, 3000000), procs=T(2, 3), max_len=400)],
-    floor=T(1000000, 30000000), nt_floor=T(100000, 1000000),
+    jobs=[dict(harness="matrix", prop="matrix", cases=T(750000, 4000000), procs=T(8, 16)),
+          dict(harness="fz_matrix", prop="matrix", kind="fuzz", cases=T(180000, 3000000), procs=T(2, 3), max_len=400)],
+    floor=T(3000000, 30000000), nt_floor=T(300000, 1000000),
     assumptions=["'correctly rounded' for multiply/scale/rotate/translate is read as: each 16.16 product rounded to nearest (DESIGN.md C11 Care)",
                  "1/sx may be the floor or the ceiling of the exact quotient",
                  "rotate with c or s == INT32_MIN is outside the domain (-s not representable)",
@@ -132,9 +132,9 @@ CHECKS["C18"] = dict(
           "n_values == 4 + w*2^bx + h*2^by, every phase sums to exactly 65536 (64-bit sum), set_filter accepts, and for kernels up "
           "to 200 taps a constant a8r8g8b8 image stays constant under the filter. Non-trivial = width >= 2 or >= 1 phase bit on an axis."
           " Also run coverage-guided: the libFuzzer target fz_filter decodes the fuzzer's bytes through the same generator into the same oracle (ASan build)."),
-    jobs=[dict(harness="filter_asan", prop="filter", cases=T(4000, 60000), procs=T(8, 16)),
-          dict(harness="fz_filter", prop="filter", kind="fuzz", cases=T(40000, 1500000), procs=T(2, 3), max_len=300)],
-    floor=T(20000, 500000), nt_floor=T(5000, 100000),
+    jobs=[dict(harness="filter_asan", prop="filter", cases=T(8000, 60000), procs=T(8, 16)),
+          dict(harness="fz_filter", prop="filter", kind="fuzz", cases=T(80000, 1500000), procs=T(2, 3), max_len=300)],
+    floor=T(40000, 500000), nt_floor=T(10000, 100000),
     assumptions=["the constant-image consequence is asserted only for kernels of <= 200 taps: the fetchers round every x*y coefficient product, so for huge kernels a drift is arithmetic of the fetcher, not of the table"],
 )
 
@@ -156,14 +156,14 @@ CHECKS["C10"] = dict(
           'the images were first drawn with. The codec property also runs under the MMX and the general-only chain. Non-trivial ='
           ' unaligned start/end, indexed/YUV source, or accessor callbacks observed.'),
     jobs=[
-        dict(harness="formats", prop="exh", cases=T(150, 1500), procs=T(4, 8)),
-        dict(harness="formats", prop="codec", cases=T(12000, 250000), procs=T(6, 12)),
-        dict(harness="formats_asan", prop="codec", cases=T(3000, 60000), procs=T(2, 4)),
+        dict(harness="formats", prop="exh", cases=T(1200, 1500), procs=T(4, 8)),
+        dict(harness="formats", prop="codec", cases=T(96000, 250000), procs=T(6, 12)),
+        dict(harness="formats_asan", prop="codec", cases=T(24000, 60000), procs=T(2, 4)),
           # the readers and writers of the other implementation levels (MMX iterators; the general path alone)
-          dict(harness="formats", prop="codec", cases=T(8000, 120000), procs=T(1, 2), env={"PIXMAN_DISABLE": "sse2 ssse3"}, tag="codec_mmx"),
-          dict(harness="formats", prop="codec", cases=T(8000, 120000), procs=T(1, 2), env={"PIXMAN_DISABLE": "fast mmx sse2 ssse3"}, tag="codec_general"),
+          dict(harness="formats", prop="codec", cases=T(64000, 120000), procs=T(1, 2), env={"PIXMAN_DISABLE": "sse2 ssse3"}, tag="codec_mmx"),
+          dict(harness="formats", prop="codec", cases=T(64000, 120000), procs=T(1, 2), env={"PIXMAN_DISABLE": "fast mmx sse2 ssse3"}, tag="codec_general"),
     ],
-    floor=T(40000, 800000), nt_floor=T(10000, 100000),
+    floor=T(320000, 800000), nt_floor=T(80000, 100000),
     assumptions=["reference codec in harness/img.hpp written from the PIXMAN_FORMAT bit fields",
                  "YUV formats have no exact rule in the statement: only reader agreement / accessor equivalence are asserted for them",
                  "float and YUV formats address memory directly even with accessors installed; this is observed and labelled, not asserted against (the statement speaks about identical behaviour)",
@@ -188,12 +188,12 @@ CHECKS["C01"] = dict(
           'equation in the statement). Non-trivial = operator reads both operands or a mask is present, and some source alpha '
           'strictly between 0 and 1 or a mask.'),
     jobs=[
-        dict(harness="combine", prop="combine", cases=T(150000, 1500000), procs=T(6, 12)),
-        dict(harness="combine", prop="combine", cases=T(15000, 200000), procs=T(1, 2), env={"PIXMAN_DISABLE": "sse2 ssse3 mmx"}, tag="combine_nosimd"),
-          dict(harness="combine", prop="combine", cases=T(15000, 200000), procs=T(1, 2), env={"PIXMAN_DISABLE": "sse2 ssse3"}, tag="combine_mmx"),
-        dict(harness="combine", prop="combine", cases=T(15000, 200000), procs=T(1, 2), env={"PIXMAN_DISABLE": "fast sse2 ssse3 mmx"}, tag="combine_general"),
+        dict(harness="combine", prop="combine", cases=T(300000, 1500000), procs=T(6, 12)),
+        dict(harness="combine", prop="combine", cases=T(30000, 200000), procs=T(1, 2), env={"PIXMAN_DISABLE": "sse2 ssse3 mmx"}, tag="combine_nosimd"),
+          dict(harness="combine", prop="combine", cases=T(30000, 200000), procs=T(1, 2), env={"PIXMAN_DISABLE": "sse2 ssse3"}, tag="combine_mmx"),
+        dict(harness="combine", prop="combine", cases=T(30000, 200000), procs=T(1, 2), env={"PIXMAN_DISABLE": "fast sse2 ssse3 mmx"}, tag="combine_general"),
     ],
-    floor=T(200000, 5000000), nt_floor=T(50000, 1000000),
+    floor=T(400000, 5000000), nt_floor=T(100000, 1000000),
     assumptions=["reference models in harness/ref_combine.hpp are written from the Render protocol and PDF 1.7 blend-mode equations",
                  "real-valued classes are asserted on premultiplied-valid inputs only (the statement says 'applied to the premultiplied inputs'); arbitrary values are asserted in the exact class",
                  "tolerance 2 steps for the 8-bit blend modes (MULTIPLY rounds three products separately: 1.5 steps worst case on the unchanged code)"],
@@ -213,10 +213,10 @@ CHECKS["C12"] = dict(
           '+ composite32. Non-trivial = some sample covered and a non-vertical edge (law dependent). Also run coverage-guided: '
           "the libFuzzer target fz_traps decodes the fuzzer's bytes through the same generator into the same oracle (ASan build)."),
     jobs=[
-        dict(harness="traps", prop="traps", cases=T(40000, 800000), procs=T(8, 14)),
-        dict(harness="traps_asan", prop="traps", cases=T(5000, 100000), procs=T(2, 2)),
-          dict(harness="fz_traps", prop="traps", kind="fuzz", cases=T(40000, 1500000), procs=T(2, 3), max_len=400)],
-    floor=T(200000, 5000000), nt_floor=T(50000, 500000),
+        dict(harness="traps", prop="traps", cases=T(60000, 800000), procs=T(8, 14)),
+        dict(harness="traps_asan", prop="traps", cases=T(7500, 100000), procs=T(2, 2)),
+          dict(harness="fz_traps", prop="traps", kind="fuzz", cases=T(60000, 1500000), procs=T(2, 3), max_len=400)],
+    floor=T(300000, 5000000), nt_floor=T(75000, 500000),
     assumptions=["sample grid positions follow Render's N_X_FRAC x N_Y_FRAC layout (first = (1 - (N-1)*floor(1/N))/2, spacing floor(1/N))",
                  "tie handling (edge exactly through a sample point) is not pinned by the statement: such pixels are excluded from the model check and law mismatches confined to them are the known finding S17",
                  "requests whose edge x at an image row leaves +-2^30 units are skipped (not representable for the edge walker)"],
@@ -264,17 +264,17 @@ CHECKS["C03"] = dict(
           "every pixel of R; sources unmodified. Non-trivial = R non-empty, different from the request rectangle and with an edge "
           "strictly inside the image."),
     jobs=[
-        dict(harness="touch", prop="composite", cases=T(25000, 400000), procs=T(6, 12)),
-        dict(harness="touch_asan", prop="composite", cases=T(8000, 80000), procs=T(2, 4)),
+        dict(harness="touch", prop="composite", cases=T(37500, 400000), procs=T(6, 12)),
+        dict(harness="touch_asan", prop="composite", cases=T(12000, 80000), procs=T(2, 4)),
         # trapezoid entry points: the C12 harness checks every pixel against the sample-count model (so nothing outside the
         # shape changes), row padding, and runs on exactly sized buffers fenced by PROT_NONE pages
-        dict(harness="traps", prop="traps", cases=T(15000, 200000), procs=T(3, 4), tag="c03_traps", tolerate=["S15", "S17"]),
+        dict(harness="traps", prop="traps", cases=T(22500, 200000), procs=T(3, 4), tag="c03_traps", tolerate=["S15", "S17"]),
         # fill_boxes / fill_rectangles (every bit outside boxes ∩ bounds ∩ clip unchanged; the direct-fill shortcut) and the
         # glyph entry points (bit-identical to per-glyph compositing on clipped destinations): the oracles of C19 / C17
-        dict(harness="touch", prop="fill", cases=T(8000, 100000), procs=T(2, 3), tag="c03_fill"),
-        dict(harness="glyphs", prop="draw", cases=T(3000, 50000), procs=T(2, 3), tag="c03_glyphs", tolerate=["S20"]),
+        dict(harness="touch", prop="fill", cases=T(12000, 100000), procs=T(2, 3), tag="c03_fill"),
+        dict(harness="glyphs", prop="draw", cases=T(4500, 50000), procs=T(2, 3), tag="c03_glyphs", tolerate=["S20"]),
     ],
-    floor=T(100000, 2000000), nt_floor=T(30000, 500000),
+    floor=T(150000, 2000000), nt_floor=T(45000, 500000),
     assumptions=["clips are not put on alpha-map images (the statement does not enumerate them)",
                  "the 'every pixel of R is drawn' direction is asserted only for geometry within +-16000 (requests whose source coordinates leave the 16-bit range are dropped by design, C04)"],
 )
@@ -290,11 +290,11 @@ CHECKS["C19"] = dict(
           "returns TRUE; ASan build included. Non-trivial = unaligned start/width with some chain returning TRUE; shortcut "
           "operator with a box cut by the image edge or the clip."),
     jobs=[
-        dict(harness="impls", prop="fillblt", cases=T(20000, 300000), procs=T(3, 6)),
-        dict(harness="touch", prop="fill", cases=T(20000, 300000), procs=T(3, 6)),
-        dict(harness="touch_asan", prop="fill", cases=T(6000, 100000), procs=T(2, 4)),
+        dict(harness="impls", prop="fillblt", cases=T(80000, 300000), procs=T(3, 6)),
+        dict(harness="touch", prop="fill", cases=T(80000, 300000), procs=T(3, 6)),
+        dict(harness="touch_asan", prop="fill", cases=T(24000, 100000), procs=T(2, 4)),
     ],
-    floor=T(100000, 1500000), nt_floor=T(20000, 300000),
+    floor=T(400000, 1500000), nt_floor=T(80000, 300000),
     assumptions=["the reference for fill_boxes is pixman_image_composite32 with a solid image (its own correctness is C01/C03)"],
 )
 
@@ -312,17 +312,17 @@ CHECKS["C04"] = dict(
           "generator. Violation = sanitizer report, SIGSEGV on a guard page, destination bits outside the C03 region or source "
           "storage modified, accessor address outside the storage. Trapezoid entry points: the C12 harness on fenced canvases "
           "(plain and ASan). Non-trivial = non-empty composite region and a transformed bits source or mask."),
-    jobs=[dict(harness="oob", prop="oob", cases=T(12000, 250000), procs=T(1, 1), env={"PIXMAN_DISABLE": ch}, tag="oob_chain%d" % i) for i, ch in enumerate(_CHAINS8)] + [
-        dict(harness="oob_asan", prop="oob", cases=T(10000, 120000), procs=T(3, 4)),
-        dict(harness="fz_oob", prop="oob", kind="fuzz", cases=T(40000, 2000000), procs=T(3, 4), max_len=600),
-        dict(harness="traps", prop="traps", cases=T(10000, 150000), procs=T(1, 2), tag="c04_traps", tolerate=["S15", "S17"]),
-        dict(harness="traps_asan", prop="traps", cases=T(4000, 60000), procs=T(1, 2), tag="c04_traps_asan", tolerate=["S15", "S17"]),
+    jobs=[dict(harness="oob", prop="oob", cases=T(15600, 250000), procs=T(1, 1), env={"PIXMAN_DISABLE": ch}, tag="oob_chain%d" % i) for i, ch in enumerate(_CHAINS8)] + [
+        dict(harness="oob_asan", prop="oob", cases=T(13000, 120000), procs=T(3, 4)),
+        dict(harness="fz_oob", prop="oob", kind="fuzz", cases=T(52000, 2000000), procs=T(3, 4), max_len=600),
+        dict(harness="traps", prop="traps", cases=T(13000, 150000), procs=T(1, 2), tag="c04_traps", tolerate=["S15", "S17"]),
+        dict(harness="traps_asan", prop="traps", cases=T(5200, 60000), procs=T(1, 2), tag="c04_traps_asan", tolerate=["S15", "S17"]),
         # pixman_image_fill_boxes / fill_rectangles and the pixman_fill shortcut behind them (C19's oracle, on fenced and
         # ASan-guarded destinations)
-        dict(harness="touch", prop="fill", cases=T(8000, 100000), procs=T(2, 3), tag="c04_fill"),
-        dict(harness="touch_asan", prop="fill", cases=T(3000, 40000), procs=T(1, 2), tag="c04_fill_asan"),
+        dict(harness="touch", prop="fill", cases=T(10400, 100000), procs=T(2, 3), tag="c04_fill"),
+        dict(harness="touch_asan", prop="fill", cases=T(3900, 40000), procs=T(1, 2), tag="c04_fill_asan"),
     ],
-    floor=T(100000, 2000000), nt_floor=T(30000, 500000),
+    floor=T(130000, 2000000), nt_floor=T(39000, 500000),
     assumptions=["images are described truthfully (stride >= row bytes, storage valid for height rows, YV12 planes laid out as the library documents)",
                  "request geometry whose sums (x + width, dest - src) overflow int32 is outside the stated domain and skipped",
                  "ASan/guard pages only see accesses that leave the allocation: an over-read that stays inside row padding of the same buffer is visible only when the buffer has no padding (70% of cases)"],
@@ -344,12 +344,12 @@ CHECKS["C08"] = dict(
           ' not an integer translate, >= 2 distinct source values sampled, and (repeat with samples outside, or a sample within 2'
           ' units of a pixel boundary/centre, or projective).'),
     jobs=[
-        dict(harness="sampling", prop="sampling", cases=T(40000, 700000), procs=T(6, 10)),
-        dict(harness="sampling", prop="sampling", cases=T(20000, 300000), procs=T(1, 2), env={"PIXMAN_DISABLE": "sse2 ssse3 mmx"}, tag="sampling_nosimd"),
-        dict(harness="sampling", prop="sampling", cases=T(20000, 300000), procs=T(1, 2), env={"PIXMAN_DISABLE": "fast sse2 ssse3 mmx"}, tag="sampling_general"),
-        dict(harness="sampling", prop="sampling", cases=T(10000, 150000), procs=T(1, 2), env={"PIXMAN_DISABLE": "wholeops"}, tag="sampling_wholeops"),
+        dict(harness="sampling", prop="sampling", cases=T(80000, 700000), procs=T(6, 10)),
+        dict(harness="sampling", prop="sampling", cases=T(40000, 300000), procs=T(1, 2), env={"PIXMAN_DISABLE": "sse2 ssse3 mmx"}, tag="sampling_nosimd"),
+        dict(harness="sampling", prop="sampling", cases=T(40000, 300000), procs=T(1, 2), env={"PIXMAN_DISABLE": "fast sse2 ssse3 mmx"}, tag="sampling_general"),
+        dict(harness="sampling", prop="sampling", cases=T(20000, 150000), procs=T(1, 2), env={"PIXMAN_DISABLE": "wholeops"}, tag="sampling_wholeops"),
     ],
-    floor=T(200000, 4000000), nt_floor=T(50000, 800000),
+    floor=T(400000, 4000000), nt_floor=T(100000, 800000),
     assumptions=["domain: the request rectangle expanded by one pixel maps, corner by corner, to within +-30000 source pixels with w of one sign (the library drops requests beyond that, which is C04's 'dropped or clamped')",
                  "kernels have absolute coefficient sums well below 128.0 (32-bit accumulators of 8-bit pixel x 16.16 coefficient)",
                  "wide (10 bpc, sRGB, float) sources are not covered here (C09/C10 cover them differentially)"],
@@ -370,18 +370,18 @@ CHECKS["C09"] = dict(
           'identical on RGB (and alpha when both have it), bit for bit. Non-trivial = the pair differs in opacity flagging and '
           "the operator's row of the reduction table has differing columns, or a mask is elided."),
     jobs=[
-        dict(harness="opaque", prop="opaque", cases=T(30000, 500000), procs=T(6, 10)),
-        dict(harness="opaque", prop="opaque", cases=T(15000, 250000), procs=T(1, 2), env={"PIXMAN_DISABLE": "fast sse2 ssse3 mmx"}, tag="opaque_general"),
-        dict(harness="opaque", prop="opaque", cases=T(15000, 250000), procs=T(1, 2), env={"PIXMAN_DISABLE": "sse2 ssse3"}, tag="opaque_mmx"),
-        dict(harness="opaque", prop="opaque", cases=T(15000, 250000), procs=T(1, 2), env={"PIXMAN_DISABLE": "mmx sse2 ssse3"}, tag="opaque_cfast"),
+        dict(harness="opaque", prop="opaque", cases=T(150000, 500000), procs=T(6, 10)),
+        dict(harness="opaque", prop="opaque", cases=T(75000, 250000), procs=T(1, 2), env={"PIXMAN_DISABLE": "fast sse2 ssse3 mmx"}, tag="opaque_general"),
+        dict(harness="opaque", prop="opaque", cases=T(75000, 250000), procs=T(1, 2), env={"PIXMAN_DISABLE": "sse2 ssse3"}, tag="opaque_mmx"),
+        dict(harness="opaque", prop="opaque", cases=T(75000, 250000), procs=T(1, 2), env={"PIXMAN_DISABLE": "mmx sse2 ssse3"}, tag="opaque_cfast"),
         # "treated as opaque only if every sample has alpha 1": solids with 16-bit alpha 0xff00..0xfffe vs the same colour as a
         # 1x1 repeating rgba_float image, as source or mask, on 10 bpc / sRGB / float destinations
-        dict(harness="opaque", prop="nearopaque", cases=T(30000, 400000), procs=T(2, 4)),
+        dict(harness="opaque", prop="nearopaque", cases=T(150000, 400000), procs=T(2, 4)),
         # the same simplification inside pixman_image_fill_boxes (OVER with an opaque colour becomes SRC / a direct fill):
         # C19's oracle "fill_boxes == compositing a solid over each box", which includes 16-bit alphas 0xff00..0xfffe
-        dict(harness="touch", prop="fill", cases=T(8000, 100000), procs=T(2, 3), tag="c09_fill"),
+        dict(harness="touch", prop="fill", cases=T(40000, 100000), procs=T(2, 3), tag="c09_fill"),
     ],
-    floor=T(150000, 3000000), nt_floor=T(40000, 600000),
+    floor=T(750000, 3000000), nt_floor=T(200000, 600000),
     assumptions=["r5g6b5 vs 8888 source presentations are compared in the 8-bit pipeline only (in floating point r5g6b5 is widened as v/31, the 8888 copy holds replicated 8-bit values)",
                  "solid vs uniform-image presentations are not compared when the uniform image goes through an interpolating/convolving fetch in floating point",
                  "HSL operators with a component-alpha mask are defined as DST and are not a presentation of 'no mask'",
@@ -489,11 +489,11 @@ CHECKS["C20"] = dict(
           'starting value; built with ASan (use after free, double free) and LSan; a second job runs the same histories against '
           'the 16-slot glyph table of hook 3 (every slot incl. the last holds a glyph at some point). Non-trivial = a map is '
           'unreferenced by the user before its owner, or an owned parameter buffer is replaced twice.'),
-    jobs=[dict(harness="lifetime_asan", prop="lifetime", cases=T(15000, 300000), procs=T(8, 12)),
+    jobs=[dict(harness="lifetime_asan", prop="lifetime", cases=T(22500, 300000), procs=T(8, 12)),
           # the same histories against the 16-slot glyph table of hook 3: every slot of the table, the last one included, holds
           # a glyph of a pool image at some point before the cache is destroyed
-          dict(harness="lifetime_small", prop="lifetime", cases=T(8000, 150000), procs=T(3, 4))],
-    floor=T(80000, 2000000), nt_floor=T(15000, 300000),
+          dict(harness="lifetime_small", prop="lifetime", cases=T(12000, 150000), procs=T(3, 4))],
+    floor=T(120000, 2000000), nt_floor=T(22500, 300000),
     assumptions=["images are never touched after the model says their last reference is gone (that would be a caller error)",
                  "the live-allocation counter covers allocations made by the library (compile-time rename of malloc/calloc/realloc/free in the asan variant)"],
 )
@@ -515,8 +515,8 @@ CHECKS["C15"] = dict(
           "FALSE or take effect (the image then renders like one with exactly the reported settings, or the void draw skipped "
           "work); void drawing changes nothing outside the request; a failed glyph insert leaves no entry. Non-trivial = a fault was "
           "actually injected into an allocation of the scenario."),
-    jobs=[dict(harness="oom_asan", prop="oom", cases=T(700, 8000), procs=T(8, 14))],
-    floor=T(4000, 80000), nt_floor=T(2000, 40000),
+    jobs=[dict(harness="oom_asan", prop="oom", cases=T(1400, 8000), procs=T(8, 14))],
+    floor=T(8000, 80000), nt_floor=T(4000, 40000),
     assumptions=["allocation failure is injected through a compile-time rename of malloc/calloc/realloc/free in the library objects (asan variant); allocations made by libc on the library's behalf (none today) would not be seen",
                  "per the statement, void drawing may skip work after a failed allocation; pixels inside the request are not asserted then"],
 )
